@@ -73,6 +73,16 @@ CHECKS = {
          'bounded-exhaustive trees, recorded callbacks vs independent post-order walk',
          'DESIGN.md section 4 C19'),
 
+ 'C14': ('model_checking',
+         'Explicit-state breadth-first search over build histories of real LatexContextDb objects: all operation sequences of length <= 4 (quick) / 5 (thorough) over add_context_category '
+         '(3 names x 3 contents x 8 placements incl. missing reference names), set_unknown_macro_spec, freeze, filtered_context (4 variants), extended_with (5 variants) on worlds of <= 3 databases. '
+         'States are merged on (reference world, internal chain-map shape, autogen counter). In every state every database of the world (parents re-queried after every derivation) is asked for '
+         'every name and kind, categories(), iter_*_specs, test_for_specials on 6 probes; answers must equal a list-based reference model and the self-consistency oracle "first category in '
+         'reported order that defines it / longest specials match"; frozen databases must refuse mutation; operation outcomes (ok / ValueError / RuntimeError) must match.',
+         'Trusted: the 100-line reference model in mc/checks/c14.py; the merging argument (every mutator reads only fields contained in the canonical key). Automatic category names compared as AUTO.',
+         'explicit-state search (BFS with state merging) over operation histories of the implementation, lock-step reference model',
+         'DESIGN.md section 4 C14'),
+
  'C11': ('model_checking',
          'Explicit-state exploration of the real LatexTokenReader: every state (remaining input, configuration) for all words of length '
          '<= 3 (quick) / 4 (thorough) over a 15-symbol alphabet x 6172 configurations (math mode and delimiter, 2^7 enable_* switches, extra group '
